@@ -111,7 +111,21 @@ fn fresh_shell(rt: &tokio::runtime::Runtime) -> brush_core::Shell {
         .expect("shell")
 }
 
-fn eval_case(shell: &mut brush_core::Shell, c: &[String]) -> String {
+fn eval_case(
+    shell: &mut brush_core::Shell,
+    baseline: &std::collections::HashSet<String>,
+    c: &[String],
+) -> String {
+    // isolation between cases: drop every variable an earlier case may have created
+    let stale: Vec<String> = shell
+        .env()
+        .iter()
+        .map(|(n, _)| n.clone())
+        .filter(|n| !baseline.contains(n))
+        .collect();
+    for n in stale {
+        let _ = shell.env_mut().unset(&n);
+    }
     let nounset = c.first().map(|s| unhex_str(s)).unwrap_or_default() == "1";
     let expr = unhex_str(c.get(1).map(|s| s.as_str()).unwrap_or("-"));
     let obs_s = unhex_str(c.get(2).map(|s| s.as_str()).unwrap_or("-"));
@@ -173,8 +187,12 @@ fn main_eval(cases: &[Vec<String>]) {
         .build()
         .expect("rt");
     let mut shell = fresh_shell(&rt);
+    let baseline: std::collections::HashSet<String> =
+        shell.env().iter().map(|(n, _)| n.clone()).collect();
     for c in cases {
-        let r = std::panic::catch_unwind(std::panic::AssertUnwindSafe(|| eval_case(&mut shell, c)));
+        let r = std::panic::catch_unwind(std::panic::AssertUnwindSafe(|| {
+            eval_case(&mut shell, &baseline, c)
+        }));
         match r {
             Ok(line) => println!("{line}"),
             Err(e) => {
